@@ -92,6 +92,10 @@ def judge_module(o):
         return "docs-changed", json.dumps({"before": o.get("docs"), "after": o.get("docs2")})[:400]
     if not o["idempotent"]:
         return "not-idempotent", ""
+    if "inplace_panic" in o or "inplace_err" in o:
+        return "inplace-failed", str(o.get("inplace_panic") or o.get("inplace_err"))[:300]
+    if o.get("inplace_same") is False:
+        return "inplace-differs", "`aiken fmt` left on disk: %r" % o.get("inplace_out", "")[-300:]
     return "ok", ""
 
 
@@ -217,7 +221,7 @@ def c13(tier):
     # ---- 3a. regressions and known findings (fixed inputs)
     import glob
     regs = REGRESSIONS + [(os.path.basename(f), open(f).read()) for f in sorted(glob.glob(os.path.join(vlib.ROOT, "corpus", "c13_regressions", "*.ak")))]
-    fixed_inputs = [{"id": k, "src": s, "lean": True} for k, s in regs + REPRODUCERS]
+    fixed_inputs = [{"id": k, "src": s, "lean": True, "inplace_dir": os.path.join(vlib.WORK, "c13_inplace_%d" % os.getpid())} for k, s in regs + REPRODUCERS]
     fo = run_modules(fixed_inputs)
     known_still = 0
     for (k, s), o in zip(regs + REPRODUCERS, fo):
@@ -236,7 +240,8 @@ def c13(tier):
     files = corpus_files()
     if len(files) < 160:
         raise vlib.ToolError("only %d .ak files found under /repo/examples and /repo/benchmarks" % len(files))
-    co = run_modules([{"id": f, "src": open(f).read(), "lean": True} for f in files], timeout=60)
+    inplace = os.path.join(vlib.WORK, "c13_inplace_%d" % os.getpid())
+    co = run_modules([{"id": f, "src": open(f).read(), "lean": True, "inplace_dir": inplace} for f in files], timeout=60)
     n_corpus_ok = 0
     for f, o in zip(files, co):
         if o is None or "timeout" in o:
@@ -254,7 +259,8 @@ def c13(tier):
     # ---- 3c. the generated campaign
     n = 700 if tier == "quick" else 12000
     base = vlib.seed() * 1000003
-    gen = [{"id": i, "src": syntaxgen.gen(base + i, d=3 if i % 4 else 2, comments=(i % 5 != 0)), "lean": True} for i in range(n)]
+    gen = [dict({"id": i, "src": syntaxgen.gen(base + i, d=3 if i % 4 else 2, comments=(i % 5 != 0)), "lean": True}, **({"inplace_dir": inplace} if i % 3 == 0 else {}))
+           for i in range(n)]
     go = run_modules(gen)
     stats = {"ok": 0, "unparsed": 0}
     comments_seen = 0
